@@ -4,6 +4,9 @@ Proof step (Props/C18.vo) + regenerated tables (translate_sites.py -> coq/Gen/C1
 re-checked by coqc) + probes: one program per call site / lookup / feature x every pack format of JMC's
 table (and -1, and some formats outside the table) x jmc.txt name sets, real paths / references / diagnostics
 compared with the model inside Coq.
+Strengthening round 3: every version-gated built-in (list regenerated from the gates + @func_property decorators) x every combination
+of its boolean / gate-relevant arguments x every format (BUILTIN_PROBE, builtin_matrix, Coq `mcase`); the translator records under which
+conditions each gate is reached (fail closed); every compiled output is scanned for format-dependent syntax.
 """
 from __future__ import annotations
 
@@ -118,13 +121,12 @@ BUILTIN_PROBE = {
                         alts=dict(errorMessage=['""', '"dependency missing"']), uses=lambda a: {"FReturnRun"}),
     "Item.create": dict(required=dict(itemId="it", itemType="stone"), alts=ITEM_ALTS, uses=item_uses),
     "Item.createUse": dict(required=dict(itemId="it", itemType="carrot_on_a_stick"), alts=ITEM_ALTS, uses=item_uses),
-    "Item.createSpawnEgg": dict(required=dict(itemId="egg", mobType="pig", onPlace=ARROW), alts=ITEM_ALTS, uses=item_uses,
-                                known_crash="KeyError"),    # KeyError 'itemType' in ItemMixin.create_item on every call (same site as the C13 finding)
+    "Item.createSpawnEgg": dict(required=dict(itemId="egg", mobType="pig", onPlace=ARROW), alts=ITEM_ALTS, uses=item_uses),
     "Item.createSign": dict(required=dict(itemId="sg", variant="oak"),
                             alts=dict(ITEM_ALTS, texts=['["a","b","c","d"]', '["a","b","c","d","e","f","g","h"]']),
                             uses=lambda a: item_uses(a) | ({"FSignSides"} if "true" in (a.get("isFrontGlow"), a.get("isBackGlow")) else set())),
     "GUI.register": dict(required=dict(name="my_gui", id='"a"', item="stone"), prelude='GUI.template(my_gui, ["abc"], block); ',
-                         alts=ITEM_ALTS, uses=item_uses, known_crash="KeyError"),   # KeyError 'component' on every call: a C13 finding, nothing to judge here
+                         alts=ITEM_ALTS, uses=item_uses),
 }
 ABSENT = None
 
@@ -193,9 +195,12 @@ def builtin_matrix(t, tier):
 
 
 def builtin_src(b, pr, explicit, style=0):
-    req = [pr["required"][a] for a, _ in b["args"] if a in pr["required"]]
-    if style == 1:      # every argument by keyword
-        req = [f"{a}={pr['required'][a]}" for a, _ in b["args"] if a in pr["required"]]
+    req, positional = [], style != 1      # style 1: every argument by keyword
+    for a, _ in b["args"]:
+        if a in pr["required"]:
+            req.append(pr["required"][a] if positional else f"{a}={pr['required'][a]}")
+        else:
+            positional = False              # a required argument declared after an optional one can only be given by keyword
     opt = [f"{a}={explicit[a]}" for a, _ in b["args"] if a in explicit]
     return pr.get("prelude", "") + f"{b['call_string']}({', '.join(req + opt)});"
 
@@ -398,6 +403,10 @@ def main(tier: str) -> int:
         "harness/translate_sites.py (fail-closed Python-ast translator): call sites of add_private_json/add_json, the strip rule of add_private_json, "
         "build's function_folder, the ADVANCEMENT lookup keys, is_function_in_copy, PackVersionFeature, PACK_VERSION, require gates",
         "harness/c18.py + c18_run.py: probes (real compiler) and the reference scanner (regexes over emitted commands / JSON)",
+        "harness/c18.py BUILTIN_PROBE `uses` (hand-written): which format-dependent feature an argument combination of a version-gated built-in makes "
+        "the output use (glow flag -> sign sides, component= -> item components, nbt= -> item NBT, JMC.require -> `return run`), and `version_syntax` "
+        "(regexes for `return run`, `function .. with` / inline arguments, `$` macro lines in emitted functions); translate_sites.py GATE_REACH: reviewed "
+        "reach conditions of the gates outside built-ins",
         "outside the model: user-written `new <type>(…)` JSON (folder chosen by the user), vanilla commands the user writes verbatim "
         "(e.g. `$`-macro lines), version-dependent NBT/text-component syntax of Item/Text built-ins",
     ]
